@@ -189,3 +189,170 @@ def nested_boxes(levels, corners="++++"):
             body = [""] + ["  " + x for x in inner] + [" " + r for r in rows] + [""]
             art = box(w, len(body), corners=corners, inner=body)
     return art
+
+
+# ---------------------------------------------------------------------------------------------
+# the zoo: one generator that composes every feature class seen to matter, shared by all checks
+# ---------------------------------------------------------------------------------------------
+
+SPECIAL_LABEL = ["é", "ü", "ж", "一", "本語", "á", "a​b", "x️", "\t", "a\tb", "\x01", "￾", "́", "😀", "a&b", "<b>", "'q'"]
+
+
+def styled_box(rng, inner=None, w=None, h=None):
+    """a box whose four edges are styled independently (solid / dashed), corners sharp, rounded or box-drawing"""
+    fam = rng.below(6)
+    if fam <= 2:
+        corners = "++++"
+    elif fam <= 4:
+        corners = rng.choice([".." + "''", ",." + "`'", ".." + "`'"])
+    else:
+        corners = "┌┐└┘"
+    glyph = corners[0] == "┌"
+    inner = inner or []
+    w = w if w is not None else max([len(x) for x in inner] + [rng.range(0, 8)]) + rng.below(3)
+    h = h if h is not None else max(len(inner), rng.range(0, 4))
+    top = "─" if glyph else rng.choice("---~")
+    bot = "─" if glyph else rng.choice("---~")
+    tl, tr, bl, br = corners
+    rows = [tl + top * w + tr]
+    for i in range(h):
+        l = "│" if glyph else rng.choice("|||:!")
+        r = "│" if glyph else rng.choice("|||:!")
+        body = (inner[i] if i < len(inner) else "")
+        rows.append(l + (body + " " * w)[:w] + r)
+    rows.append(bl + bot * w + br)
+    return "\n".join(rows)
+
+
+def decorated_run(rng):
+    """a straight run in one of the four axes, pieces mixing solid and dashed, with an arrow head, a bullet or
+    nothing at either end, possibly a `*` in the middle"""
+    axis = rng.below(4)
+    n = rng.range(1, 10)
+    heads = {0: ("<", ">"), 1: ("^", "v"), 2: ("^", "v"), 3: ("^", "v")}[axis]
+    pieces = {0: "-~", 1: "|:!", 2: "\\", 3: "/"}[axis]
+    body = []
+    while len(body) < n:
+        body += [rng.choice(pieces[:1] * 3 + pieces)] * rng.range(1, 4)
+    body = body[:n]
+    if axis == 0 and n >= 3 and rng.chance(1, 4):
+        body[n // 2] = rng.choice("*oO")
+
+    def end(which):
+        r = rng.below(5)
+        if r == 0:
+            return heads[which]
+        if r == 1:
+            return rng.choice("*oO")
+        if r == 2:
+            return "+"
+        return None
+    a, b = end(0), end(1)
+    seq = ([a] if a else []) + body + ([b] if b else [])
+    m = len(seq)
+    if axis == 0:
+        return "".join(seq)
+    if axis == 1:
+        return "\n".join(seq)
+    if axis == 2:
+        return "\n".join(" " * i + c for i, c in enumerate(seq))
+    return "\n".join(" " * (m - 1 - i) + c for i, c in enumerate(seq))
+
+
+def label(rng, special=True):
+    words = []
+    for _ in range(rng.range(1, 3)):
+        if special and rng.chance(1, 4):
+            words.append(rng.choice(SPECIAL_LABEL))
+        else:
+            words.append("".join(rng.choice(LABEL[:40]) for _ in range(rng.range(1, 6))))
+    return " ".join(words)
+
+
+def zoo_piece(rng, quotes=True, tags=True, special=True):
+    k = rng.below(13)
+    if k == 0:
+        inner = []
+        for _ in range(rng.below(3)):
+            r = rng.below(5)
+            if r == 0 and tags:
+                inner.append(" {" + ",".join(rng.choice(["a", "b1", "red", "w"]) for _ in range(rng.range(1, 3))) + "}")
+            elif r == 1 and quotes:
+                inner.append(' "' + rng.choice(["q", "a-b|c", 'x\\"y', "", "一"]) + '"')
+            else:
+                inner.append(" " + label(rng, special))
+        return styled_box(rng, inner)
+    if k == 1:
+        depth = rng.range(2, 4)
+        lv = [[rng.choice(["", label(rng, special), "{a}" if tags else "t", "*->", '"q"' if quotes else "q"])] for _ in range(depth)]
+        return nested_boxes(lv, corners=rng.choice(["++++", "..''"]))
+    if k == 2 or k == 3:
+        return decorated_run(rng)
+    if k == 4:
+        cat = circle_catalogue()
+        art = rng.choice(cat[:10] if rng.chance(2, 3) else cat)[0]
+        return art
+    if k == 5:
+        return attached_shape(rng)
+    if k == 6:
+        blocks = bundled_blocks()
+        return rng.choice(blocks) if blocks else "+-+"
+    if k == 7:
+        return random_grid(rng, rng.range(1, 10), rng.range(1, 5), mixed_alphabet(rng), rng.choice([30, 60, 95]))
+    if k == 8:
+        return "\n".join(label(rng, special) for _ in range(rng.range(1, 3)))
+    if k == 9:
+        # a label between two long diagonals / next to a box and a diagonal (overlapping bounding boxes)
+        h = rng.range(4, 6)
+        lab = rng.choice(["a", "ab"])
+        rows = [" " * (h - 1 - i) + "/" + " " * (len(lab) + 1) + "/" for i in range(h)]
+        i = rng.range(1, h - 2)
+        rows[i] = " " * (h - 1 - i) + "/" + lab + " /"
+        return "\n".join(rows)
+    if k == 10:
+        # an elbow path with corners and a T junction
+        w, h = rng.range(2, 8), rng.range(1, 4)
+        rows = ["+" + "-" * w + "+" + "-" * rng.below(4)]
+        rows += ["|" + " " * w + "|"] * h
+        rows += ["+" + "-" * (w // 2) + "+" + ("-" * (w - w // 2 - 1) + "'" if w - w // 2 - 1 >= 0 else "")]
+        return "\n".join(rows)
+    if k == 11:
+        n = rng.range(2, 6)
+        return "\n".join(rng.choice(["-", "=", "~", "_"]) * rng.range(2, 9) for _ in range(n))
+    if quotes:
+        return " ".join(rng.choice(['"a-b"', '"|"', '"x\\"y"', '""', '"一二"', '"<&>"', "--", "+", "ab"]) for _ in range(rng.range(1, 4)))
+    return label(rng, special)
+
+
+LEGENDS = ["a = {fill:red}", "b1 = {stroke:blue;}", "w = {}", "red = { fill : #f00 }", "a = {fill:blue}\nb1 = {x:y}",
+           "w = {stroke-dasharray: 1 2;\n  fill: none}", "a={fill:red} ", "big = {a}"]
+
+
+def zoo(rng, legend=True, quotes=True, tags=True, special=True):
+    """a drawing composed of 1..4 pieces placed side by side, stacked, aligned or touching, optionally with a legend"""
+    art = zoo_piece(rng, quotes, tags, special)
+    for _ in range(rng.below(4)):
+        other = zoo_piece(rng, quotes, tags, special)
+        mode = rng.below(5)
+        gap = rng.choice([0, 1, 1, 2, 3])
+        if mode <= 1:
+            art = side_by_side(art, other, gap)
+        elif mode == 2:
+            art = art + "\n" * (gap + 1) + other
+        elif mode == 3:
+            la = art.split("\n")
+            x = dispw(la[-1])
+            art = art + "\n" * (gap + 1) + place(other, x, 0)
+        else:
+            art = art + "\n" * (gap + 1) + place(other, rng.below(6), 0)
+    art = place(art, rng.choice([0, 0, 1, 3, 9]), rng.choice([0, 0, 1, 2]))
+    if not legend:
+        art = art.split("# Legend:")[0]
+    elif rng.chance(1, 4):
+        art = art.split("# Legend:")[0].rstrip("\n") + "\n\n# Legend:" + rng.choice(["", " "]) + "\n" + \
+            "\n".join(rng.choice(LEGENDS) for _ in range(rng.range(1, 3))) + rng.choice(["", "\n", "\n\n"])
+    if not tags:
+        art = art.replace("{", "(").replace("}", ")")
+    if not quotes:
+        art = art.replace('"', "'")
+    return art
